@@ -43,7 +43,7 @@ var c01Kinds = []string{
 	"remove", "truncate-keep-proof", "truncate-attacker-proof", "rekey", "proof-attacker-secret", "proof-donor",
 	"proof-attacker-seal", "proof-none", "seal-by-holder", "unseal-random-secret", "holder-append", "attacker-chain",
 	"algorithm", "size", "root-key-id", "raw-flip", "raw-truncate", "proof-both", "strip-last-with-own-secret",
-	"proof-secret-64-with-public-key", "proof-secret-other-length", "truncate-proof-64-with-public-key",
+	"proof-secret-64-with-public-key", "proof-secret-other-length", "truncate-proof-64-with-public-key", "seal-size",
 }
 
 func pickField(sb *wire.SignedBlock, f string) *[]byte {
@@ -202,6 +202,22 @@ func applyMutation(c C01Case, tgtBytes []byte, tgt, donor *wire.Biscuit) (*wire.
 		if env.Proof.HasSecret && len(env.Proof.Secret) == 32 {
 			all := env.All()
 			env.Proof = wire.Proof{HasFinal: true, Final: sealSignature(ed25519.NewKeyFromSeed(env.Proof.Secret), all[len(all)-1])}
+		}
+	case "seal-size":
+		// a genuine seal (the token's own, or one made with the holder's secret) with bytes added or removed
+		if env.Proof.HasSecret && len(env.Proof.Secret) == 32 {
+			all := env.All()
+			env.Proof = wire.Proof{HasFinal: true, Final: sealSignature(ed25519.NewKeyFromSeed(env.Proof.Secret), all[len(all)-1])}
+		}
+		if env.Proof.HasFinal && len(env.Proof.Final) > 0 {
+			switch mu.J % 3 {
+			case 0:
+				env.Proof.Final = append(env.Proof.Final, byte(mu.Bit))
+			case 1:
+				env.Proof.Final = append(append([]byte{}, env.Proof.Final...), env.Proof.Final...)
+			default:
+				env.Proof.Final = env.Proof.Final[:len(env.Proof.Final)-1]
+			}
 		}
 	case "unseal-random-secret":
 		env.Proof = wire.Proof{HasSecret: true, Secret: aseed}
@@ -411,7 +427,7 @@ func drawC01(t *rapid.T) C01Case {
 func TestC01(t *testing.T) {
 	rec := obs.New("C01")
 	defer rec.Flush(true)
-	rec.SetExtra("rule", "rapid histories (target token: build, 0-4 appends, optional seal, serialize; donor token of another or the same issuer) x one mutation from a 29-entry catalogue applied to the envelope decoded by the independent reader and re-encoded (bit flips in block/key/signature/proof, field swap inside a token, field or whole-block copy from the donor, reorder, insert copy / attacker-signed block, remove, truncate keeping or replacing the proof, strip last block, re-key with attacker keys, proof replaced by attacker secret / a 64-byte secret whose second half is the announced public key / a secret of another length / donor proof / attacker seal / nothing / both members, seal by the legitimate holder, legitimate append and complete attacker-signed chain built with this package's own signer, algorithm value, key/signature size, root key id, raw byte flip / truncation) x verifying root (own, donor, attacker). Every stage of the history must verify under its own root, and two tokens appended to a drawn stage must verify and leave every earlier token's bytes unchanged. Oracle: independent ed25519 chain walk, both directions for structural mutations, soundness for raw byte mutations (thorough adds native fuzzing of the bytes with the soundness oracle). Non-trivial = the mutated token still unmarshals and differs from every token of the history; distinct by (mutation kind, field, position, length, sealed, root, bytes).")
+	rec.SetExtra("rule", "rapid histories (target token: build, 0-4 appends, optional seal, serialize; donor token of another or the same issuer) x one mutation from a 30-entry catalogue applied to the envelope decoded by the independent reader and re-encoded (bit flips in block/key/signature/proof, field swap inside a token, field or whole-block copy from the donor, reorder, insert copy / attacker-signed block, remove, truncate keeping or replacing the proof, strip last block, re-key with attacker keys, proof replaced by attacker secret / a 64-byte secret whose second half is the announced public key / a secret of another length / donor proof / attacker seal / nothing / both members, seal by the legitimate holder, a genuine seal with bytes added / doubled / removed, legitimate append and complete attacker-signed chain built with this package's own signer, algorithm value, key/signature size, root key id, raw byte flip / truncation) x verifying root (own, donor, attacker). Every stage of the history must verify under its own root, and two tokens appended to a drawn stage must verify and leave every earlier token's bytes unchanged. Oracle: independent ed25519 chain walk, both directions for structural mutations, soundness for raw byte mutations (thorough adds native fuzzing of the bytes with the soundness oracle). Non-trivial = the mutated token still unmarshals and differs from every token of the history; distinct by (mutation kind, field, position, length, sealed, root, bytes).")
 	rec.SetExtra("assumptions", []string{"crypto/ed25519 is trusted", "root key id and protobuf encoding slack are unsigned and not claimed tamper-evident", "shows resistance to the catalogue, not cryptographic unforgeability"})
 	harness.RunWith(t, harness.Spec[C01Case]{ID: "C01", Draw: drawC01, Check: checkC01}, rec)
 }
